@@ -210,9 +210,8 @@ theorem delete_spec : ∀ fuel, DelSpec sch (fun x => delete sch fuel x) := by
       cases h
       exact ⟨hD, Sub.refl _, Cleared.refl _ _, by simpa using hal⟩
     · obtain ⟨stB, hAB, hfin⟩ := Res.bind_ok h
-      cases hfin
       obtain ⟨stA, hA1, hB1⟩ := Res.bind_ok hAB
-      have hI0 : FrameInv sch (fun p b => E p b ∨ p = o) (fun w => P w ∨ w = o) st.store (st.log (Undo.status o true)).store :=
+      have hI0 : FrameInv sch (fun p b => E p b ∨ p = o) (fun w => P w ∨ w = o) st.store st.store :=
         ⟨hD.mono (fun _ _ h => Or.inl h), Sub.refl _, Cleared.refl _ _⟩
       -- the collection attributes
       have hIA := iter_inv _ (fun s => FrameInv sch (fun p b => E p b ∨ p = o) (fun w => P w ∨ w = o) st.store s.store)
@@ -280,11 +279,28 @@ theorem delete_spec : ∀ fuel, DelSpec sch (fun x => delete sch fuel x) := by
                   rw [← hst] at h1 h2 h3
                   exact hI.step h1 h2 h3
           · cases hf) _ _ _ hIA hB1
-      -- the object dies
+      -- the object dies (or a nested frame of the same object has already finished)
+      have hfinal : st'.store = stB.store.setAlive o false := by
+        split at hfin
+        · rename_i hdead
+          have e := Res.ok.inj hfin
+          rw [← e]
+          have hdead' : stB.store.alive o = false := by simpa using hdead
+          generalize stB.store = sB at hdead' ⊢
+          cases sB with
+          | mk n ent alive ref mem =>
+            simp only [Store.setAlive, Store.mk.injEq, true_and, and_true]
+            funext p
+            split
+            · rename_i hpo; rw [hpo]; exact hdead'
+            · rfl
+        · have e := Res.ok.inj hfin
+          rw [← e]; rfl
+      rw [hfinal]
       refine ⟨?_, ?_, ?_, ?_⟩
       · intro p b q hp hal hh
-        simp only [St.setStore_store, Store.setAlive] at hp hal
-        simp only [St.setStore_store, hasB_setAlive] at hh ⊢
+        simp only [Store.setAlive] at hp hal
+        simp only [hasB_setAlive] at hh ⊢
         split at hal
         · cases hal
         · rename_i hpo
@@ -295,12 +311,12 @@ theorem delete_spec : ∀ fuel, DelSpec sch (fun x => delete sch fuel x) := by
       · have := hIB.sub
         refine ⟨this.n, this.ent, ?_, this.ref, this.mem⟩
         intro p hp
-        simp only [St.setStore_store, Store.setAlive] at hp
+        simp only [Store.setAlive] at hp
         split at hp
         · cases hp
         · exact this.alive p hp
       · intro q b w hw
-        simp only [St.setStore_store, Store.setAlive]
+        simp only [Store.setAlive]
         rcases hIB.cleared q b w hw with h' | ⟨h', hdead | hP | rfl⟩
         · exact Or.inl h'
         · refine Or.inr ⟨h', Or.inl ?_⟩
